@@ -79,6 +79,8 @@ def enc_recipe(r):
                "edges": [list(e) for e in r["edges"]]}
         if "metadata" in r:
             out["metadata"] = enc(r["metadata"])
+        if r.get("edge_lists"):
+            out["edge_lists"] = True
         return out
     if r["k"] == "__alias__":
         return {"k": "__alias__", "of": r["of"]}
@@ -94,6 +96,8 @@ def dec_recipe(j):
                "edges": [tuple(e) for e in j["edges"]]}
         if "metadata" in j:
             out["metadata"] = dec(j["metadata"])
+        if j.get("edge_lists"):
+            out["edge_lists"] = True
         return out
     if j["k"] == "__alias__":
         return {"k": "__alias__", "of": j["of"]}
@@ -112,7 +116,8 @@ def build(r):
             kw["metadata"] = r["metadata"]
         built = {n: build(x) for n, x in r["nodes"].items() if x["k"] != "__alias__"}
         nodes = {n: (built[x["of"]] if x["k"] == "__alias__" else built[n]) for n, x in r["nodes"].items()}
-        return nir.NIRGraph(nodes=nodes, edges=[tuple(e) for e in r["edges"]], **kw)
+        edges = [list(e) for e in r["edges"]] if r.get("edge_lists") else [tuple(e) for e in r["edges"]]
+        return nir.NIRGraph(nodes=nodes, edges=edges, **kw)
     cls = getattr(nir, r["k"])
     node = cls(**r["args"])
     if "set_types" in r:
